@@ -64,6 +64,9 @@ type ChanPlan struct {
 	SendCtxUs [2]int `json:"send_ctx_us,omitempty"`
 	// RecvPoll: the receiver of a side uses ReceiveAsync + ReceiveWait (armed before the poll) instead of Receive
 	RecvPoll [2]bool `json:"recv_poll,omitempty"`
+	// Unopened: before its real channel the client obtains this many channels from the same endpoint and
+	// frees them without sending anything (a caller that changed its mind, a request that failed to build)
+	Unopened int `json:"unopened,omitempty"`
 }
 
 // sideEnd returns the ending action of one side (-1: none) and how many messages it waits for.
@@ -164,6 +167,7 @@ type flowRun struct {
 	stranded         int
 	recvCtxExpired   int // Receive calls that ended by the receiver's own deadline and were repeated
 	sendCtxExpired   int // likewise Send calls
+	unopened         int // channels obtained and freed without ever being opened
 	userConns        [2][]mpx.Conn // connections the harness has seen through its channels: [client ends, server ends]
 }
 
@@ -294,6 +298,13 @@ func (r *flowRun) runChannelClient(cs *chanState, open opener) {
 	cp := cs.plan
 	if cp.StartUs > 0 {
 		hSleep(time.Duration(cp.StartUs) * time.Microsecond)
+	}
+	for k := 0; k < cp.Unopened; k++ {
+		if uch, st := open(r.bg); st.OK() {
+			hYield("flow.unopened")
+			uch.Free()
+			r.unopened++
+		}
 	}
 	ch, st := open(r.bg)
 	cs.openSt = stName(st)
